@@ -3,7 +3,7 @@ CONSTANTS
   T = {t1, t2}
   Low = 14
   High = 16
-  MaxB = 18
+  MaxB = 11
   Dev = {}
 INVARIANTS TypeOK NoCrash DownToLow
 CONSTRAINT FewEv
